@@ -88,6 +88,13 @@ CLAIMED["C25"] = {
   "design_ref": "DESIGN.md section 4 C25",
 }
 
+CLAIMED["C24"] = {
+  "text": "Static, path-sensitive decision of the sign/zero clauses: every return of the constraint force law carries an admissible (state, force form, path condition) triple (SATISFIED => 0; LINEARNEG/LINEARPOS => +/-frictionloss beyond +/-rf; friction QUADRATIC => -D*jaref strictly inside; limit/contact QUADRATIC => -D*jaref under jaref < 0 with D stored as x/max(., MINVAL) > 0); efc.force/state have a single writer fed by that law; qfrc_constraint pairs J[r, j] with force[r] on dof j.",
+  "note": STATIC_NOTE,
+  "technique": "path-condition analysis of a decision tree (values touched only through comparisons) + who-may-write + index pairing on the kernel IR",
+  "design_ref": "DESIGN.md section 4 C24",
+}
+
 NOT_APPLICABLE = {
   "C06": "optimality of an iterative float solve is a runtime quantity; no structural necessary condition beyond what C24/C25 decide",
   "C18": "equivalence of broadphases depends on geometric conservativeness of numeric filters and sort/scan arithmetic; a sibling text-diff of the NXN/SAP kernels would alarm on harmless refactors",
